@@ -76,6 +76,23 @@ def main():
     finally:
         sh("git -C /repo worktree remove --force %s" % wt)
         shutil.rmtree(wt, ignore_errors=True)
+    if "--scratch" in sys.argv:
+        # development mode: run the twenty checks against a scratch copy with the patch applied (tools/seeded_par.py); /repo is not touched
+        sys.path.insert(0, VERIF)
+        from tools import seeded_par
+        tmp, err = seeded_par.scratch_with_patch(os.path.join(dest, "patch.diff"))
+        fired = seeded_par.run_props(tmp) if tmp else {}
+        if tmp:
+            shutil.rmtree(tmp, ignore_errors=True)
+        meta["checks_fired"] = fired
+        meta["detected"] = any(r["rc"] == 1 for r in fired.values())
+        meta["detected_by_own_property"] = prop in fired and fired[prop]["rc"] == 1
+        meta["ran"].append("patch applied to a scratch copy of /repo@%s; twenty quick checks run against the copy" % head)
+        with open(os.path.join(dest, "meta.json"), "w") as fh:
+            json.dump(meta, fh, indent=1)
+        print(json.dumps({k: meta[k] for k in ("name", "property", "demo_unchanged_exit", "demo_changed_exit", "suite_summary", "detected", "detected_by_own_property") if k in meta}, indent=1))
+        print("fired:", {p: r["rules"] or r["rc"] for p, r in fired.items()})
+        return
     # our checks on /repo itself
     st = sh("git -C /repo status --porcelain")[1].strip()
     if st:
